@@ -127,44 +127,19 @@ Fixpoint elem_type (fuel : nat) (S : scope) (tref : path) : option (option (path
        end.
 
 (* ---- instantiation *)
-Definition result := (list flatvar * list eqn * list eqn)%type.   (* variables, equations of the
-    sub-instances (resolved), equations of this instance still to be resolved *)
+(* the elements of a class: its components, inherited ones first (bases in the order of the extends clauses),
+   as an ordered map keyed by the component name — an element that is inherited twice or declared again
+   counts once.  Each element remembers the scope of the class that DECLARES it and the modifiers that
+   apply to it (from outside, then the extends clauses on the way, outermost first). *)
+Definition elem := (sym * scope * list mentry)%type.
+Definition el_sym (e : elem) : sym := fst (fst e).
+Definition el_scope (e : elem) : scope := snd (fst e).
+Definition el_mods (e : elem) : list mentry := snd e.
+Definition el_name (e : elem) : ident := s_name (el_sym e).
+Definition e_update (l new : list elem) : list elem := od_update el_name Pos.eqb l new.
 
-Section InstSyms.
-  Variable rec : cdef -> path -> scope -> path -> list mentry -> option result.   (* a whole sub-instance *)
-  Variable ety : scope -> path -> option (option (path * list mentry)).
-  Variable sc : scope.            (* scope of the DECLARING class *)
-  Variable prefix : path.         (* the instance *)
-  Variable mods : list mentry.    (* modifiers from outside, outermost first *)
-
-  Fixpoint inst_syms (ss : list sym) (vs : list flatvar) (es : list eqn) : option (list flatvar * list eqn) :=
-    match ss with
-    | [] => Some (vs, es)
-    | s :: ss' =>
-        let name := prefix ++ [s_name s] in
-        let m := sub_mods (s_name s) mods ++ flat_args (Some prefix) (s_mods s) in
-        let pre := drop_io prefix (s_prefixes s) in
-        match ety sc (s_type s) with
-        | None => None
-        | Some (Some (t, am)) =>
-            inst_syms ss' (v_update vs [mkVar name t pre (s_dims s) (leaf_attrs (m ++ am))]) es
-        | Some None =>
-            match lookup sc (s_type s) with
-            | None => None
-            | Some (tc, tlex, tS, _) =>
-                match rec tc tlex tS name m with
-                | None => None
-                | Some (svs, ses, _) => inst_syms ss' (v_update vs (map (add_dims (s_dims s)) svs)) (es ++ ses)
-                end
-            end
-        end
-    end.
-End InstSyms.
-
-(* fin = true: a whole instance (references written in it are resolved at the end);
-   fin = false: the elements of a base class, contributed to the instance `prefix` of the deriving class *)
-Fixpoint inst_go (fuel : nat) (fin : bool) (c : cdef) (lex : path) (S : scope) (prefix : path)
-         (mods : list mentry) : option result :=
+Fixpoint elems (fuel : nat) (c : cdef) (lex : path) (S : scope) (prefix : path) (mods : list mentry)
+  : option (list elem * list eqn) :=
   match fuel with
   | O => None
   | S f =>
@@ -172,29 +147,69 @@ Fixpoint inst_go (fuel : nat) (fin : bool) (c : cdef) (lex : path) (S : scope) (
         fold_left (fun acc e =>
                      match acc with
                      | None => None
-                     | Some (vs, es, raw) =>
+                     | Some (els, raw) =>
                          if mem_id (head_id (fst e)) BUILTIN then acc
                          else match lookup (own_frame c lex :: S) (fst e) with
                               | None => None
                               | Some (bc, blex, bS, _) =>
-                                  match inst_go f false bc blex bS prefix
-                                                (mods ++ flat_args (Some prefix) (snd e)) with
+                                  match elems f bc blex bS prefix (mods ++ flat_args (Some prefix) (snd e)) with
                                   | None => None
-                                  | Some (bvs, bes, braw) => Some (v_update vs bvs, es ++ bes, raw ++ braw)
+                                  | Some (bels, braw) => Some (e_update els bels, raw ++ braw)
                                   end
                               end
-                     end) (c_exts c) (Some ([], [], [])) in
+                     end) (c_exts c) (Some ([], [])) in
       match inherited with
       | None => None
-      | Some (vs0, es0, raw0) =>
-          match inst_syms (inst_go f true) (elem_type f) (class_scope f c lex S) prefix mods (c_syms c) vs0 es0 with
+      | Some (els, raw) =>
+          Some (e_update els (map (fun s => (s, class_scope f c lex S, mods)) (c_syms c)), raw ++ c_eqs c)
+      end
+  end.
+
+Section InstElems.
+  Variable rec : cdef -> path -> scope -> path -> list mentry -> option (list flatvar * list eqn).   (* a whole sub-instance *)
+  Variable ety : scope -> path -> option (option (path * list mentry)).
+  Variable prefix : path.         (* the instance *)
+
+  Fixpoint inst_elems (els : list elem) (vs : list flatvar) (es : list eqn) : option (list flatvar * list eqn) :=
+    match els with
+    | [] => Some (vs, es)
+    | (s, sc, mods) :: els' =>
+        let name := prefix ++ [s_name s] in
+        let m := sub_mods (s_name s) mods ++ flat_args (Some prefix) (s_mods s) in
+        let pre := drop_io prefix (s_prefixes s) in
+        match ety sc (s_type s) with
+        | None => None
+        | Some (Some (t, am)) =>
+            inst_elems els' (v_update vs [mkVar name t pre (s_dims s) (leaf_attrs (m ++ am))]) es
+        | Some None =>
+            match lookup sc (s_type s) with
+            | None => None
+            | Some (tc, tlex, tS, _) =>
+                match rec tc tlex tS name m with
+                | None => None
+                | Some (svs, ses) => inst_elems els' (v_update vs (map (add_dims (s_dims s)) svs)) (es ++ ses)
+                end
+            end
+        end
+    end.
+End InstElems.
+
+(* a whole instance: its elements are instantiated in order (a leaf becomes a variable, a structured
+   component a sub-instance); then the references written in this instance — in its equations, inherited
+   ones included, and in the modifier expressions written in it — are resolved with its leaves *)
+Fixpoint inst_go (fuel : nat) (c : cdef) (lex : path) (S : scope) (prefix : path) (mods : list mentry)
+  : option (list flatvar * list eqn) :=
+  match fuel with
+  | O => None
+  | S f =>
+      match elems f c lex S prefix mods with
+      | None => None
+      | Some (els, raw) =>
+          match inst_elems (inst_go f) (elem_type f) prefix els [] [] with
           | None => None
           | Some (vs, es) =>
-              let raw := raw0 ++ c_eqs c in
-              if fin then
-                let leaves := map v_name vs in
-                Some (map (resolve_var leaves prefix) vs, es ++ map (resolve_eqn leaves prefix) raw, [])
-              else Some (vs, es, raw)
+              let leaves := map v_name vs in
+              Some (map (resolve_var leaves prefix) vs, es ++ map (resolve_eqn leaves prefix) raw)
           end
       end
   end.
@@ -227,8 +242,8 @@ Definition inst (root : list cdef) (top : path) : option (list flatvar * list eq
   match lookup (lex_scope root []) top with
   | None => None
   | Some (c, lex, Sp, _) =>
-      match inst_go INST_FUEL true c lex Sp [] [] with
+      match inst_go INST_FUEL c lex Sp [] [] with
       | None => None
-      | Some (vs, es, _) => Some (map conv_var vs, es ++ conv_eqs vs)
+      | Some (vs, es) => Some (map conv_var vs, es ++ conv_eqs vs)
       end
   end.
